@@ -408,6 +408,105 @@ func goInt(g string, big bool) interface{} {
 	return int(n)
 }
 
+// goLeaf returns the abstract leaf value v (int 5, float 1.5, a boolean, the string "sv", null) in the Go
+// representation g.
+func goLeaf(g string, v *Value) interface{} {
+	switch g {
+	case "f64":
+		return float64(1.5)
+	case "f32":
+		return float32(1.5)
+	case "pf64":
+		x := float64(1.5)
+		return &x
+	case "pf32":
+		x := float32(1.5)
+		return &x
+	case "nilpf64":
+		var p *float64
+		return p
+	case "nilpf32":
+		var p *float32
+		return p
+	case "nilpint":
+		var p *int
+		return p
+	case "nilpu16":
+		var p *uint16
+		return p
+	case "nilpi64":
+		var p *int64
+		return p
+	case "bool":
+		return v.B
+	case "pbool":
+		x := v.B
+		return &x
+	case "nilpbool":
+		var p *bool
+		return p
+	case "string":
+		return v.V
+	case "pstring":
+		x := v.V
+		return &x
+	case "nilpstring":
+		var p *string
+		return p
+	case "int":
+		return int(5)
+	case "i8":
+		return int8(5)
+	case "i16":
+		return int16(5)
+	case "i32":
+		return int32(5)
+	case "i64":
+		return int64(5)
+	case "u8":
+		return uint8(5)
+	case "u16":
+		return uint16(5)
+	case "u32":
+		return uint32(5)
+	case "u64":
+		return uint64(5)
+	case "uint":
+		return uint(5)
+	case "pint":
+		x := int(5)
+		return &x
+	case "pi8":
+		x := int8(5)
+		return &x
+	case "pi16":
+		x := int16(5)
+		return &x
+	case "pi32":
+		x := int32(5)
+		return &x
+	case "pi64":
+		x := int64(5)
+		return &x
+	case "pu8":
+		x := uint8(5)
+		return &x
+	case "pu16":
+		x := uint16(5)
+		return &x
+	case "pu32":
+		x := uint32(5)
+		return &x
+	case "pu64":
+		x := uint64(5)
+		return &x
+	case "puint":
+		x := uint(5)
+		return &x
+	}
+	panic("harness: unknown Go representation " + g)
+}
+
 func isTypeOfFor(name string, enabled bool) graphql.IsTypeOfFn {
 	if !enabled {
 		return nil
@@ -513,6 +612,8 @@ func (b *Built) resolver(tn string, fd FieldDef) graphql.FieldResolveFn {
 			return 3000000000, nil
 		case "goint":
 			return goInt(oc.G, oc.Big), nil
+		case "goleaf":
+			return goLeaf(oc.G, oc.Val), nil
 		case "badenum":
 			return EInt("nope"), nil
 		case "wrongitem":
